@@ -32,6 +32,9 @@ pub struct GenerationCache {
     config_hash: String,
     /// Combined hash for quick comparison
     combined_hash: String,
+    /// Names of the files the run wrote into the output directory
+    #[serde(default)]
+    generated_files: Vec<String>,
 }
 
 impl GenerationCache {
@@ -68,7 +71,14 @@ impl GenerationCache {
             structs_hash,
             config_hash,
             combined_hash,
+            generated_files: Vec::new(),
         })
+    }
+
+    /// Record the files the run wrote: when one of them is gone, the next run regenerates
+    pub fn with_generated_files(mut self, files: &[String]) -> Self {
+        self.generated_files = files.to_vec();
+        self
     }
 
     /// Load cache from file
@@ -122,6 +132,15 @@ impl GenerationCache {
 
         // Check version compatibility
         if previous_cache.version != Self::CURRENT_VERSION {
+            return Ok(true);
+        }
+
+        // A generated file was deleted since
+        if previous_cache
+            .generated_files
+            .iter()
+            .any(|file| !output_dir.as_ref().join(file).exists())
+        {
             return Ok(true);
         }
 
